@@ -200,9 +200,12 @@ def gen_c08(g, lines, k):
     lines.append("wire start %s" % hx(yaml_cfg("svc.test", lip, P, T, [None, True][k % 2], ["udp://" + be])))
     lines.append("wire bind %s" % hx(be))
     lines.append("wire bind %s" % hx(ua))
-    def probe(tag):
+    def probe(tag, patient=False):
         v = Via("UDP", "127.0.2.1", UP, [("branch", "z9hG4bKLIVE" + g.word(ALNUM.upper(), 6, 9)), ("rport", "")])
         req = msg("OPTIONS sip:svc.test SIP/2.0", [("Via", v.text()), ("From", "<sip:p@ua.test>;tag=1"), ("To", "<sip:svc.test>"), ("Call-ID", "live-" + tag), ("CSeq", "1 OPTIONS")])
+        if patient:
+            lines.append("wire probe %s %s %s %s 5 1500 msg=%s # spec=C08 dest U %s" % (hx(ua), hx("%s:%d" % (lip, P)), hx(be), hx(req), hx(req), hx(be)))
+            return
         lines.append("wire udp %s %s %s" % (hx(ua), hx("%s:%d" % (lip, P)), hx(req)))
         lines.append("wire recv %s 1500 msg=%s # spec=C08 dest U %s" % (hx(be), hx(req), hx(be)))
     probe("first-%d" % k)
@@ -237,7 +240,7 @@ def gen_c08(g, lines, k):
         lines.append("wire sleep 20")
         g.count("wire_largest_datagrams")
     lines.append("wire drain %s" % hx(ua))
-    probe("after-largest-%d" % k)
+    probe("after-largest-%d" % k, patient=True)
     lines.append("wire end")
 
 def gen_c08_two(g, lines, k):
@@ -253,9 +256,13 @@ def gen_c08_two(g, lines, k):
     lines.append("wire start %s" % hx(y))
     lines.append("wire bind %s" % hx(be))
     lines.append("wire bind %s" % hx(ua))
-    def probe(tag, P):
+    def probe(tag, P, patient=False):
         v = Via("UDP", "127.0.2.1", UP, [("branch", "z9hG4bKLIVE" + g.word(ALNUM.upper(), 6, 9)), ("rport", "")])
         req = msg("OPTIONS sip:svc.test SIP/2.0", [("Via", v.text()), ("From", "<sip:p@ua.test>;tag=1"), ("To", "<sip:svc.test>"), ("Call-ID", "live2-" + tag), ("CSeq", "1 OPTIONS")])
+        if patient:
+            # (after a flood the listener may still be busy with it, and its socket buffer full: the probe is repeated)
+            lines.append("wire probe %s %s %s %s 6 2000 msg=%s # spec=C08 dest U %s # spec=C09 dest U %s" % (hx(ua), hx("%s:%d" % (lip, P)), hx(be), hx(req), hx(req), hx(be), hx(be)))
+            return
         lines.append("wire udp %s %s %s" % (hx(ua), hx("%s:%d" % (lip, P)), hx(req)))
         lines.append("wire recv %s 1500 msg=%s # spec=C08 dest U %s # spec=C09 dest U %s" % (hx(be), hx(req), hx(be), hx(be)))
     probe("a-%d" % k, P1); probe("b-%d" % k, P2)
@@ -268,7 +275,7 @@ def gen_c08_two(g, lines, k):
     lines.append("wire flood %s %s %s %d %s" % (hx(ua), hx("%s:%d" % (lip, P1)), hx("%s:%d" % (lip, P2)), 6000 if k == 0 else 30000, "f%d%s" % (k, g.word("abcdefghijklmnopqrstuvwxyz", 4, 6))))
     lines.append("wire sleep 600")
     lines.append("wire drain %s" % hx(be))
-    probe("c-%d" % k, P1); probe("d-%d" % k, P2)
+    probe("c-%d" % k, P1, patient=True); probe("d-%d" % k, P2, patient=True)
     lines.append("wire end")
 
 def gen_c10_pair(g, lines, k):
